@@ -262,23 +262,33 @@ ViewState == <<ents, stack, nrem, devUsed>>
 ViewW == <<ents, stack, nrem, devUsed, lastop, ls>>
 EmitAll == (hist # <<>>) => PrintT(<<"BEH", ToJson(hist)>>)
 EmitDone == (lastop = <<"finish">>) => PrintT(<<"BEH", ToJson(hist)>>)
-W(c) == c => (PrintT(<<"BEH", ToJson(hist)>>) /\ FALSE)
 LastE == ents[Len(ents)]
 IsStart == Len(ents) > 0 /\ LastE.kind # "remote" /\ lastop # <<>> /\ lastop[1] = "start" /\ ls # <<>> /\ ls.e = Len(ents)
 \* rare conditions that must be replayed on every run
-WitInherit   == W(IsStart /\ ls.p # 0 /\ ents[ls.p].flags % 2 = 1 /\ ls.dec = "DROP")
-WitInheritRO == W(IsStart /\ ls.p # 0 /\ ents[ls.p].flags = 255 /\ ls.dec = "RO")
-WitRootOverActive == W(IsStart /\ ls.m.type = "ctx" /\ ls.m.root /\ ls.act # 0 /\ ls.p = 0 /\ ls.m.e = 0)
-WitRootAndSpan == W(IsStart /\ ls.m.type = "ctx" /\ ls.m.root /\ ls.m.e # 0 /\ ls.p # 0)
-WitScOverActive == W(IsStart /\ ls.m.type = "sc" /\ ls.act # 0 /\ ls.p # ls.act /\ ls.p # 0)
-WitCtxOverActive == W(IsStart /\ ls.m.type = "ctx" /\ ls.act # 0 /\ ls.p # ls.act /\ ls.p # 0)
-WitInvalidScFallsBack == W(IsStart /\ ls.m.type = "sc" /\ ls.p = ls.act /\ ls.act # 0 /\ ls.m.e # ls.act)
-WitEmptyCtxFallsBack == W(IsStart /\ ls.m.type = "ctx" /\ ls.m.e = 0 /\ ~ls.m.root /\ ls.p # 0)
-WitNoopParent == W(IsStart /\ ls.p # 0 /\ ents[ls.p].kind = "noop")
-WitSamplerTS == W(IsStart /\ ls.p # 0 /\ ents[ls.p].ts = 1 /\ ls.sts = 0)
-WitParentTS == W(IsStart /\ ls.p # 0 /\ ents[ls.p].ts = 1 /\ ls.sts = NoTS /\ ls.dec = "DROP")
-WitCrossThread == W(IsStart /\ NThr > 1 /\ ls.act # 0 /\ Active(2) # 0 /\ Active(1) # 0 /\ Active(1) # Active(2)
-                     /\ lastop[2] = 2)
-WitGrandChild == W(IsStart /\ ls.p # 0 /\ ents[ls.p].parent # 0 /\ ents[ls.p].kind # "remote")
-WitEndedParent == W(IsStart /\ ls.p # 0 /\ ents[ls.p].ended)
+C_Inherit   == IsStart /\ ls.p # 0 /\ ents[ls.p].flags % 2 = 1 /\ ls.dec = "DROP"
+C_InheritRO == IsStart /\ ls.p # 0 /\ ents[ls.p].flags = 255 /\ ls.dec = "RO"
+C_RootOverActive == IsStart /\ ls.m.type = "ctx" /\ ls.m.root /\ ls.act # 0 /\ ls.p = 0 /\ ls.m.e = 0
+C_RootAndSpan == IsStart /\ ls.m.type = "ctx" /\ ls.m.root /\ ls.m.e # 0 /\ ls.p # 0
+C_ScOverActive == IsStart /\ ls.m.type = "sc" /\ ls.act # 0 /\ ls.p # ls.act /\ ls.p # 0
+C_CtxOverActive == IsStart /\ ls.m.type = "ctx" /\ ls.act # 0 /\ ls.p # ls.act /\ ls.p # 0
+C_InvalidScFallsBack == IsStart /\ ls.m.type = "sc" /\ ls.p = ls.act /\ ls.act # 0 /\ ls.m.e # ls.act
+C_EmptyCtxFallsBack == IsStart /\ ls.m.type = "ctx" /\ ls.m.e = 0 /\ ~ls.m.root /\ ls.p # 0
+C_NoopParent == IsStart /\ ls.p # 0 /\ ents[ls.p].kind = "noop"
+C_SamplerTS == IsStart /\ ls.p # 0 /\ ents[ls.p].ts = 1 /\ ls.sts = 0
+C_ParentTS == IsStart /\ ls.p # 0 /\ ents[ls.p].ts = 1 /\ ls.sts = NoTS /\ ls.dec = "DROP"
+C_GrandChild == IsStart /\ ls.p # 0 /\ ents[ls.p].parent # 0 /\ ents[ls.p].kind # "remote"
+C_EndedParent == IsStart /\ ls.p # 0 /\ ents[ls.p].ended
+C_CrossThread == IsStart /\ NThr > 1 /\ ls.act # 0 /\ Active(2) # 0 /\ Active(1) # 0 /\ Active(1) # Active(2)
+                   /\ lastop[2] = 2
+WitNames == <<"Inherit", "InheritRO", "RootOverActive", "RootAndSpan", "ScOverActive", "CtxOverActive",
+              "InvalidScFallsBack", "EmptyCtxFallsBack", "NoopParent", "SamplerTS", "ParentTS", "GrandChild",
+              "EndedParent", "CrossThread">>
+WitConds == <<C_Inherit, C_InheritRO, C_RootOverActive, C_RootAndSpan, C_ScOverActive, C_CtxOverActive,
+              C_InvalidScFallsBack, C_EmptyCtxFallsBack, C_NoopParent, C_SamplerTS, C_ParentTS, C_GrandChild,
+              C_EndedParent, C_CrossThread>>
+\* one BFS run (workers = 1) prints a SHORTEST behaviour for every condition, once (TLC registers 1..14)
+InitW == Init /\ \A i \in 1..Len(WitNames) : TLCSet(i, 0)
+WitAll == \A i \in 1..Len(WitNames) :
+            (TLCGet(i) = 0 /\ WitConds[i]) =>
+               (TLCSet(i, 1) /\ PrintT(<<"BEH", ToJson([w |-> WitNames[i], steps |-> hist])>>))
 =============================================================================
